@@ -311,6 +311,14 @@ class A:
   def __truediv__(self, o): return self._bin(o, lambda a, b: a / b)
   def __rtruediv__(self, o): return self._bin(o, lambda a, b: b / a)
   def __neg__(self): return A([-x for x in self.data], self.shape)
+
+  def __matmul__(self, o):
+    from vf import symnp
+    return symnp.JNP.matmul(self, o)
+
+  def __rmatmul__(self, o):
+    from vf import symnp
+    return symnp.JNP.matmul(o, self)
   def __ge__(self, o): return self._bin(o, lambda a, b: a >= b)
   def __gt__(self, o): return self._bin(o, lambda a, b: a > b)
   def __le__(self, o): return self._bin(o, lambda a, b: a <= b)
